@@ -34,6 +34,7 @@ import (
 )
 
 const repoEcs = "/repo/ecs"
+
 var seams = func() string {
 	if r := os.Getenv("VERIF_ROOT"); r != "" {
 		return r + "/mc/seams"
